@@ -33,7 +33,12 @@ def main() -> int:
     except ModuleNotFoundError:
         print(f"ANALYSIS-ERROR property={prop}: no check registered")
         return 2
-    rc = core.run_check(prop, a.tier, mod.run, getattr(mod, "TITLE", ""))
+    def run(rep: "core.Report") -> None:
+        mod.run(rep)
+        if a.tier == "thorough" and not os.environ.get("VERIF_NO_SELFTEST"):
+            from sa import selftest
+            rep.extra["self_validation"] = selftest.run_for(prop)
+    rc = core.run_check(prop, a.tier, run, getattr(mod, "TITLE", ""))
     sys.stdout.flush()
     return rc
 
